@@ -425,6 +425,7 @@ func (Engine) Generate(prop string, r *kit.Rand, tier string) *kit.Scenario[Conf
 	if r.Chance(0.5) {
 		nops = r.Range(3, 16)
 	}
+	routes := append([]RouteCfg(nil), c.Routes...) // next hops the FIB holds at this point of the history (as generated)
 	wInterest, wData, wAdv, wFib, wStrat, wFaceRm, wCap := 40, 28, 18, 6, 2, 2, 2
 	if prop == "C07" {
 		wInterest, wData, wCap = 35, 40, 6
@@ -492,7 +493,31 @@ func (Engine) Generate(prop string, r *kit.Rand, tier string) *kit.Scenario[Conf
 			sc.Ops = append(sc.Ops, Op{Op: "advance", Ms: ms})
 		case 3:
 			if r.Chance(0.6) {
-				sc.Ops = append(sc.Ops, Op{Op: "fibadd", Name: g.prefix(), Face: g.face(), Cost: uint64(r.Intn(4))})
+				o := Op{Op: "fibadd", Name: g.prefix(), Face: g.face(), Cost: uint64(r.Intn(4))}
+				sc.Ops = append(sc.Ops, o)
+				routes = append(routes, RouteCfg{Prefix: o.Name, Face: o.Face})
+			} else if len(routes) > 0 && r.Chance(0.7) {
+				// an existing next hop goes away (often the entry's last one: the entry is pruned) - and the
+				// neighbouring entries must still forward: traffic for another route follows at once
+				k := r.Intn(len(routes))
+				rt := routes[k]
+				routes = append(routes[:k:k], routes[k+1:]...)
+				sc.Ops = append(sc.Ops, Op{Op: "fibrem", Name: rt.Prefix, Face: rt.Face})
+				if len(routes) > 0 && r.Chance(0.7) {
+					other := kit.Pick(r, routes)
+					in := g.interest()
+					in.Hint, in.NextHop, in.Hop = nil, 0, nil
+					in.Name = other.Prefix
+					if in.Name == "/" || r.Chance(0.6) {
+						in.Name = strings.TrimSuffix(other.Prefix, "/") + "/" + kit.Pick(r, comps)
+					}
+					g.nonces++
+					in.Nonce = g.nonces
+					for tries := 0; in.Face == other.Face && tries < 8; tries++ {
+						in.Face = g.face()
+					}
+					sc.Ops = append(sc.Ops, in)
+				}
 			} else {
 				sc.Ops = append(sc.Ops, Op{Op: "fibrem", Name: g.prefix(), Face: g.face()})
 			}
